@@ -15,7 +15,12 @@ iterators, nested lists, lists with an element that is no byte value): it must f
 something the caller did not supply (case_badraw).
 
 Shares discovery / unit construction / the query-indexed fault bus with props/c09.py, including the
-values that check declares itself (non-contiguous, descending, scattered, mixed-type locations).
+values that check declares itself (non-contiguous, descending, scattered, mixed-type locations) and the generated family
+of a program's own declarations (harness.ref_memory.family(seed), see props/c09.py: every base class, derivations from
+shipped and own values, signed values, 1..12 locations in any order up to 0xFE, every access type / none / mixed
+writeable + read-only, banks with and without lock / latch byte): every value of the family that has a location which is
+not writeable must be refused before anything is sent under every combination of allow_short_write / force_unlock /
+ignore_feedback; every writeable one goes through the same write judge as the shipped values (_shard_family).
 """
 from hypothesis import strategies as st
 
@@ -43,8 +48,17 @@ RULE = ("(value class, data or value, allow_short_write / force_unlock / ignore_
         "unstorable value / data that is no byte string); "
         "several writes in flight: 2 or 3 such tuples (mostly one value class, different data / unit image / addressing) "
         "on separate buses and the order in which they advance command by command (listed orders + Hypothesis-drawn), "
-        "non-trivial = the writes really overlap in time")
+        "non-trivial = the writes really overlap in time; declared by a program: every value of the generated family of the "
+        "run's seed - not writeable (read-only, untyped, mixed): all 8 option combinations x addressing x lock byte, short "
+        "and value-level writes, data that is no byte string; writeable: data patterns x lock byte x options, short writes, "
+        "value-level writes incl. MASK / TMASK literals and negative numbers of signed values, unstorable values / data, DTR0 "
+        "stuck / unlock values / bank ending right below each location / hole at each location, each fault kind at each "
+        "write index and at the DTR0 check")
 ASSUMPTIONS = [
+    "values declared by a program (generated family, harness/ref_memory.py family()): a location declared without type_ or "
+    "with a read-only type makes the whole value not writeable, whatever the other locations are; force_unlock on a bank "
+    "without lock byte (location 0x02 is an ordinary, here unwritable, location) must leave location 0x02 as it was; "
+    "NVM_RW_P locations are written like NVM_RW ones (no standard protection mechanism); the unchanged library does all of it",
     "bus units follow harness/model_gear.py / model_devmem.py: WRITE MEMORY LOCATION is executed only while "
     "writeEnableState is ENABLED, answers the byte written or NO (not implemented / above last location / locked / not "
     "writable), advances DTR0 either way; lockable locations are writable only while location 0x02 holds the unlock "
@@ -121,6 +135,9 @@ def ref_encode(row, value):
         b = [ord(c) for c in value]
         return b + [0] if len(b) < w else b
     if isinstance(value, int) and not isinstance(value, bool) and kind in ("uint", "cct"):
+        lo, hi = number_range(row)
+        if value < lo or value > hi:
+            return None
         try:
             return RM.encode_number(row, value)
         except ValueError:
@@ -549,6 +566,7 @@ def case_badraw(case):
 
 
 def run_case(case):
+    M.ensure_family(case)
     if case.get("kind") == "interleaved":
         return case_interleaved(case)
     if case.get("mode") == "badvalue":
@@ -697,7 +715,7 @@ def _case_steps(case, keep=None):
             exp[loc] = b
         wrong = [loc for loc in locs[:n] if after[loc] != exp[loc]]
         if wrong:
-            sig = "C10:value-encoding:" + row["cls"] if mode == "value" else "C10:data-not-stored"
+            sig = "C10:value-encoding:" + M.signame(row) if mode == "value" else "C10:data-not-stored"
             out.append((sig, "%s returned normally but location(s) %s hold [%s], expected [%s]"
                         % (where, ["0x%02x" % a for a in wrong], M.hexs([after[a] for a in locs[:n]]), M.hexs(raw))))
         # the lock byte may end up different from what it was (0xFF, 'locked again') only if the write had to unlock
@@ -907,7 +925,11 @@ def values_for(row, seed):
     vals = []
     if kind in ("uint", "cct"):
         full = (1 << (8 * w)) - 1
-        vals += [0, 1, full, full - 1, full >> 1, int.from_bytes(bytes(M.prng(seed + 5, w)), "big")]
+        if row["signed"]:       # (only values declared by a program are signed)
+            vals += [0, 1, -1, -(full >> 1) - 1, full >> 1, (full >> 1) - 1, -2,
+                     int.from_bytes(bytes(M.prng(seed + 5, w)), "big", signed=True)]
+        else:
+            vals += [0, 1, full, full - 1, full >> 1, int.from_bytes(bytes(M.prng(seed + 5, w)), "big")]
     if kind == "string":
         vals += ["", "A", "ab" * (w // 2), "x" * w, "x" * (w - 1), "Hello"[:w]]
     if kind in ("uint", "cct", "fixed", "temp"):
@@ -1118,6 +1140,142 @@ def _shard_keys(arg):
     return res
 
 
+def _shard_family(arg):
+    """The generated family of a program's own declarations (harness.ref_memory.family): every value that is not writeable
+    - read-only, untyped or MIXED writeable + read-only locations - x every combination of the three options x addressing
+    x lock byte must be refused before anything is sent; every writeable one goes through data patterns, short writes,
+    value-level writes, what cannot be stored, every unit variant (DTR0 stuck, unlock values, bank ending below / a hole at
+    each of its locations) and every fault kind at every write index and at the DTR0 check."""
+    keys, seed, quick = arg
+    res = Result()
+    run = _runner(res)
+    F = M.load_family(seed)
+    fam = F["fam"]
+    decl_of = {"%s.%s" % (d["bankobj"], d["name"]): d for d in fam["decls"]}
+    combos = [dict(asw=bool(k & 1), force_unlock=bool(k & 2), ignore_feedback=bool(k & 4)) for k in range(8)]
+    for ki, key in enumerate(keys):
+        row = M.all_rows()[key]
+        if key in F["errors"] or key not in M.lib()["classes"]:
+            res.count()
+            res.violation("C10:declared-by-program:declaration-refused", _case(key, [0] * row["width"]),
+                          "a legal declaration of the generated family cannot be made: %s" % F["errors"].get(key, "no class"))
+            continue
+        for x in RM.family_features(fam, decl_of[key]):
+            res.label("declared:" + x)
+        w, locs = row["width"], row["locs"]
+        j0 = seed * 5 + ki * 13 + row["first"]
+        short = j0 % 64
+        image = ["prng", seed * 7 + 2000 + ki]
+        pats = data_patterns(row, seed)
+
+        def C(data, **kw):
+            kw.setdefault("short", short)
+            kw.setdefault("image", image)
+            return _case(key, data, **kw)
+
+        for n in sorted({0, w - 1, w + 1, 2 * w, w + 7} - {w}):
+            run(C(M.prng(seed + n, n), addr=ADDRS[(n + j0) % 3], lock=LOCKS[n % 3]), "declared:wrong-length")
+            if n > w:
+                run(C(M.prng(seed + n, n), addr=ADDRS[(n + j0 + 1) % 3], asw=True), "declared:wrong-length")
+        if not writable_row(row):
+            # every combination of the options, every addressing, every lock byte; full length and (where allowed) short
+            for ci, fl in enumerate(combos):
+                for ai, addr in enumerate(ADDRS):
+                    run(C(pats[(ci + ai) % len(pats)], addr=addr, lock=LOCKS[(ci + ai) % 3], **fl), "declared:not-writeable")
+                if w > 1 and fl["asw"]:
+                    for n in sorted({1, w - 1}):
+                        run(C(pats[0][:n], addr=ADDRS[(ci + n) % 3], lock=LOCKS[ci % 3], **fl), "declared:not-writeable")
+            for v in values_for(row, seed)[:3]:
+                run(C(None, mode="value", value=v, addr=ADDRS[j0 % 3]), "declared:not-writeable")
+                run(C(None, mode="value", value=v, addr=ADDRS[(j0 + 1) % 3], force_unlock=True, ignore_feedback=True),
+                    "declared:not-writeable")
+            for bi, (spec, asw) in enumerate(bad_raws_for(row)[(seed + ki) % 6::6]):
+                run(C(None, mode="badraw", value=spec, asw=asw, addr=ADDRS[(bi + ki) % 3], lock=LOCKS[bi % 3]), "declared:not-writeable")
+            styles = M.spell_styles(True, seed + ki + row["first"])
+            for si, (field, _) in enumerate(OPTIONS):
+                for truth in (True, False):
+                    run(C(pats[0], addr=ADDRS[(si + truth) % 3], lock=LOCKS[si], spell={field: styles[(si + 2 * truth + seed) % len(styles)]},
+                          **{field: truth}), "declared:not-writeable")
+            continue
+        fu_ok = 2 not in locs
+        for pi, p in enumerate(pats):
+            for li, lock in enumerate(LOCKS):
+                addr = ADDRS[(pi + li + j0) % 3]
+                run(C(p, addr=addr, lock=lock), "declared:standard")
+                if (pi + li) % 2 == 0:
+                    run(C(p, addr=addr, lock=lock, ignore_feedback=True), "declared:standard")
+                    run(C(p, addr=addr, lock=lock, force_unlock=fu_ok), "declared:standard")
+                if (pi + li) % 3 == 0:
+                    run(C(p, addr=addr, lock=lock, force_unlock=fu_ok, ignore_feedback=True, asw=True), "declared:standard")
+        for n in range(1, w):
+            run(C(pats[n % len(pats)][:n], asw=True, addr=ADDRS[n % 3], lock=LOCKS[n % 3], force_unlock=fu_ok and n % 2 == 0), "declared:short-write")
+        for vi, v in enumerate(values_for(row, seed)):
+            run(C(None, mode="value", value=v, addr=ADDRS[(vi + j0) % 3], lock=LOCKS[vi % 3]), "declared:value-level")
+        for bi, spec in enumerate(bad_values_for(row, seed)[(seed + ki) % 3::3]):
+            k = bi + j0
+            fl = [{}, {}, {"ignore_feedback": True}, {"force_unlock": fu_ok}, {}][k % 5]
+            run(C(None, mode="badvalue", value=spec, addr=ADDRS[k % 3], lock=LOCKS[(k // 3) % 3], **fl), "declared:unstorable-value")
+        for bi, (spec, asw) in enumerate(bad_raws_for(row)[(seed + ki) % 4::4]):
+            k = bi + j0
+            fl = [{}, {}, {"ignore_feedback": True}, {"force_unlock": fu_ok}, {}][k % 5]
+            run(C(None, mode="badraw", value=spec, asw=asw, addr=ADDRS[k % 3], lock=LOCKS[(k // 3) % 3], **fl), "declared:unstorable-data")
+        # unit variants
+        variants = [["no_dtr0_inc"], ["unlock_value", 0x00], ["unlock_value", 0xAA], ["unlock_value", (0x54, 0x56, 0xFF)[(seed + ki) % 3]]]
+        lo = 3 if lockable_row(row) else 0
+        for last in sorted({a - 1 for a in locs if a - 1 >= lo} | {lo}):
+            if last < max(locs):
+                variants.append(["short_bank", last])
+        for h in locs:
+            if h != 2:
+                variants.append(["hole", h])
+        for vi, v in enumerate(variants):
+            for lock in (LOCKS if v[0] in ("no_dtr0_inc", "unlock_value") else (LOCKS[(vi + ki) % 3],)):
+                addr = ADDRS[(vi + lock + j0) % 3]
+                p = pats[(vi + lock) % 2]
+                run(C(p, addr=addr, lock=lock, variant=v), "declared:variant")
+                run(C(p, addr=addr, lock=lock, variant=v, ignore_feedback=True), "declared:variant")
+                if v[0] == "no_dtr0_inc":
+                    run(C(p, addr=addr, lock=lock, variant=v, force_unlock=fu_ok), "declared:variant")
+                    for vv in values_for(row, seed)[:2]:
+                        run(C(None, mode="value", value=vv, addr=addr, lock=lock, variant=v), "declared:variant")
+                if v[0] == "short_bank" and w > 1:
+                    run(C(p[:max(1, w // 2)], addr=addr, lock=lock, variant=v, asw=True), "declared:variant")
+        # one fault of each kind at each query index (writes 0..w-1, DTR0 check w)
+        for q in range(w + 1):
+            for fi, (kind, x) in enumerate((("silence", None), ("replace", 0x01), ("replace", 0xFF), ("garble", None))):
+                addr = ADDRS[(q + fi + j0) % 3]
+                run(C(pats[0], addr=addr, lock=LOCKS[(q + fi) % 3], fault=[q, kind, x]), "declared:fault")
+                if fi % 2 == q % 2:
+                    run(C(pats[0], addr=addr, lock=LOCKS[q % 3], fault=[q, kind, x], ignore_feedback=True), "declared:fault")
+                    run(C(pats[1], addr=addr, lock=LOCKS[q % 3], fault=[q, kind, x], force_unlock=fu_ok), "declared:fault")
+        if w > 2:
+            for kind, x in (("silence", None), ("replace", 0x10), ("garble", None)):
+                run(C(pats[0][:2], asw=True, fault=[2, kind, x]), "declared:fault")
+        # two writes of this value class in flight at once
+        if ki % 3 == seed % 3:
+            for name, sched, cyc in (("round-robin", [], [0, 1]), ("head-start-2", [0, 0], [1, 0]), ("nested", [[0, 3], [1, 400]], [0])):
+                a = C(pats[0], addr=ADDRS[j0 % 3], lock=LOCKS[j0 % 3])
+                b = C(pats[1], addr=ADDRS[(j0 + 1) % 3], lock=LOCKS[(j0 + 1) % 3], short=(short + 1) % 64, image=["prng", seed * 7 + ki + 4900])
+                run({"kind": "interleaved", "jobs": [a, b], "schedule": sched, "cycle": cyc}, "declared:interleaved:" + name)
+    return res
+
+
+def _shard_family_hyp(arg):
+    seed, fam_seed, n = arg
+    res = Result()
+    F = M.load_family(fam_seed)
+    keys = [k for k in F["keys"] if k in M.lib()["classes"]]
+    wkeys = [k for k in keys if writable_row(M.all_rows()[k])]
+    rokeys = [k for k in keys if not writable_row(M.all_rows()[k])]
+    if not wkeys or not rokeys:
+        return res
+    hyp.search(case_st(wkeys, rokeys), run_case, res, n, seed, ID, nontrivial=is_nontrivial,
+               classify=lambda c: ["hyp:declared-by-program"] + features(c))
+    hyp.search(badraw_st(wkeys, rokeys), run_case, res, max(1, n // 6), seed + 7, ID, nontrivial=is_nontrivial,
+               classify=lambda c: ["hyp:declared-by-program:unstorable-data"] + features(c))
+    return res
+
+
 # ---------------------------------------------------------------------- Hypothesis ----
 # mostly plain bools; else one to three of the options handed over in some other style
 _SPELL_ST = st.one_of(st.none(), st.none(), st.none(), st.fixed_dictionaries(
@@ -1141,7 +1299,7 @@ def case_st(draw, wkeys, rokeys):
         if row["kind"] == "string":
             v = draw(st.one_of(st.sampled_from(vals), st.text(st.characters(min_codepoint=1, max_codepoint=127), max_size=w)))
         elif row["kind"] in ("uint", "cct"):
-            v = draw(st.one_of(st.sampled_from(vals), st.integers(0, (1 << (8 * w)) - 1)))
+            v = draw(st.one_of(st.sampled_from(vals), st.integers(*number_range(row))))
         else:
             v = draw(st.sampled_from(vals))
         mode, data, asw = "value", None, False
@@ -1282,7 +1440,7 @@ def inter_st(draw, wkeys, rokeys):
 def _shard_hyp(arg):
     seed, n = arg
     res = Result()
-    keys = sorted(M.lib()["classes"])
+    keys = [k for k in sorted(M.lib()["classes"]) if RM.family_of_key(k) is None]       # (the family has a search of its own)
     wkeys = [k for k in keys if writable_row(M.all_rows()[k])]
     rokeys = [k for k in keys if not writable_row(M.all_rows()[k])]
     hyp.search(case_st(wkeys, rokeys), run_case, res, n, seed, ID, nontrivial=is_nontrivial,
@@ -1304,7 +1462,7 @@ def _dispatch(packed):
 def run(ctx):
     q, s = ctx.quick, ctx.seed
     rows = M.all_rows()
-    keys = sorted(rows)
+    keys = [k for k in sorted(rows) if RM.family_of_key(k) is None]
     wkeys = [k for k in keys if writable_row(rows[k])]
     rokeys = [k for k in keys if not writable_row(rows[k])]
     shards = []
@@ -1320,8 +1478,20 @@ def run(ctx):
         shards.append((_shard_keys, (rokeys[i:i + 10], s, q)))
     for k in range(16):
         shards.append((_shard_hyp, (s * 1000 + k, 900 if q else 9000)))
+    # a program's own declarations: the generated family of this seed (declared before the workers are forked)
+    F = M.load_family(s)
+    fkeys = sorted(F["keys"], key=lambda k: -rows[k]["width"] * writable_row(rows[k]))
+    per = 4
+    for i in range(0, len(fkeys), per):
+        shards.append((_shard_family, (fkeys[i:i + per], s, q)))
+    for k in range(4 if q else 16):
+        shards.append((_shard_family_hyp, (s * 1000 + 600 + k, s, 200 if q else 3000)))
     ctx.pmap(_dispatch, shards)
     ctx.result.exhaustive = False
+    ctx.result.extra["declared_by_program"] = {
+        "family_seed": s, "values": len(F["keys"]), "writeable": sum(1 for k in F["keys"] if writable_row(rows[k])),
+        "not_writeable_mixed": sum(1 for k in F["keys"] if not writable_row(rows[k]) and any(t in RM.WRITABLE_TYPES for t in rows[k]["memtype"])),
+        "declaration_errors": dict(F["errors"])}
     ctx.result.extra["writable_value_classes"] = len(wkeys)
     ctx.result.extra["read_only_value_classes"] = len(rokeys)
     L = M.lib()
